@@ -143,6 +143,71 @@ func vrBatchCheck(c vrBatchCase) (ok bool, rep map[string]any) {
 				return bad("ActiveRecords returns the non-filtered records in order", fmt.Sprintf("entry %d is %s", k, r.Position), fmt.Sprintf("p%d", act[k]))
 			}
 		}
+	case "setrecords":
+		// replace the active records [i, i+j) by new ones: exactly those slots change
+		recs := make([]opencdc.Record, c.J)
+		for k := range recs {
+			recs[k] = opencdc.Record{Position: opencdc.Position(fmt.Sprintf("new%d", k))}
+		}
+		b.SetRecords(c.I, recs)
+		for k := range b.records {
+			want := fmt.Sprintf("p%d", k)
+			for t := 0; t < c.J; t++ {
+				if act[c.I+t] == k {
+					want = fmt.Sprintf("new%d", t)
+				}
+			}
+			if string(b.records[k].Position) != want {
+				return bad("SetRecords replaces exactly the active records [i, i+n) in order and nothing else", fmt.Sprintf("slot %d holds %s", k, b.records[k].Position), want)
+			}
+			if string(b.positions[k]) != fmt.Sprintf("p%d", k) {
+				return bad("the original positions are never touched by SetRecords", fmt.Sprintf("position %d is %s", k, b.positions[k]), fmt.Sprintf("p%d", k))
+			}
+		}
+		return cmp("SetRecords changes no flag")
+	case "split":
+		// split the i-th active record into j pieces: everything else keeps its place,
+		// only the head keeps the original position, the pieces collapse back
+		n := c.J
+		recs := make([]opencdc.Record, n)
+		for k := range recs {
+			recs[k] = opencdc.Record{Position: opencdc.Position(fmt.Sprintf("piece%d", k))}
+		}
+		p := act[c.I]
+		b.SplitRecord(c.I, recs)
+		if len(b.records) != len(c.Flags)+n-1 || len(b.positions) != len(b.records) || len(b.recordStatuses) != len(b.records) || len(b.runs) != len(b.records) {
+			return bad("SplitRecord keeps the parallel slices aligned", fmt.Sprintf("lens %d %d %d %d", len(b.records), len(b.positions), len(b.recordStatuses), len(b.runs)), fmt.Sprintf("all %d", len(c.Flags)+n-1))
+		}
+		for k := range b.records {
+			var wantRec, wantPos string
+			wantFlag := 0
+			switch {
+			case k < p:
+				wantRec, wantPos, wantFlag = fmt.Sprintf("p%d", k), fmt.Sprintf("p%d", k), c.Flags[k]
+			case k < p+n:
+				wantRec = fmt.Sprintf("piece%d", k-p)
+				if k == p {
+					wantPos, wantFlag = fmt.Sprintf("p%d", p), c.Flags[p]
+				}
+			default:
+				wantRec, wantPos, wantFlag = fmt.Sprintf("p%d", k-n+1), fmt.Sprintf("p%d", k-n+1), c.Flags[k-n+1]
+			}
+			if string(b.records[k].Position) != wantRec || string(b.positions[k]) != wantPos || int(b.recordStatuses[k].Flag) != wantFlag {
+				return bad("SplitRecord puts the pieces where the record was, shifts the rest, keeps every other record/position/status, tail pieces have no position",
+					fmt.Sprintf("slot %d: record %s position %q flag %d", k, b.records[k].Position, b.positions[k], b.recordStatuses[k].Flag),
+					fmt.Sprintf("record %s position %q flag %d", wantRec, wantPos, wantFlag))
+			}
+		}
+		ob := b.originalBatch()
+		if len(ob.positions) != len(c.Flags) {
+			return bad("originalBatch collapses the pieces back to one entry per source record", fmt.Sprintf("%d entries", len(ob.positions)), fmt.Sprintf("%d", len(c.Flags)))
+		}
+		for k := range ob.positions {
+			if string(ob.positions[k]) != fmt.Sprintf("p%d", k) || string(ob.records[k].Position) != fmt.Sprintf("p%d", k) || int(ob.recordStatuses[k].Flag) != c.Flags[k] {
+				return bad("originalBatch yields the original records, positions and head statuses in order",
+					fmt.Sprintf("entry %d: record %s position %s flag %d", k, ob.records[k].Position, ob.positions[k], ob.recordStatuses[k].Flag), fmt.Sprintf("p%d p%d %d", k, k, c.Flags[k]))
+			}
+		}
 	case "subByFlag":
 		w := &Worker{}
 		s := w.subBatchByFlag(b, c.I)
@@ -218,7 +283,7 @@ func TestVerifReplay_Batch(t *testing.T) {
 	}
 	rng := rand.New(rand.NewSource(int64(seed)))
 	deadline := time.Now().Add(time.Duration(budget) * time.Second)
-	ops := []string{"filter", "retry", "ack", "nack", "indices", "active", "subByFlag"}
+	ops := []string{"filter", "retry", "ack", "nack", "indices", "active", "subByFlag", "setrecords", "split"}
 	n := 0
 	for time.Now().Before(deadline) {
 		for k := 0; k < 300; k++ {
@@ -249,6 +314,18 @@ func TestVerifReplay_Batch(t *testing.T) {
 				c.J = 1 + rng.Intn(na-c.I)
 			case "subByFlag":
 				c.I = rng.Intn(len(c.Flags) + 1)
+			case "setrecords":
+				if na == 0 {
+					continue
+				}
+				c.I = rng.Intn(na)
+				c.J = 1 + rng.Intn(na-c.I)
+			case "split":
+				if na == 0 {
+					continue
+				}
+				c.I = rng.Intn(na)
+				c.J = 2 + rng.Intn(3)
 			}
 			if ok, rep := vrBatchCheck(c); !ok {
 				rep["cases_tried"] = n
